@@ -83,6 +83,22 @@ def solve_end_state(cfg):
     return J, at, ax
 
 
+def resumed_end_state(cfg, n1, n2):
+    """two successive jinns.solve calls, the second one fed with the generator the first returned;
+    in every call iteration numbers restart at 0 and init_rar re-arms the period counter"""
+    jax, jnp, np, eqx, jinns = jx()
+    import optax
+    kind = cfg.get("kind", "ode")
+    loss, P = problem(kind, cfg.get("dim", 2) if kind != "ode" else 1)
+    g = generator(kind, cfg)
+    out1 = jinns.solve(n_iter=n1, init_params=P, data=g, loss=loss, optimizer=optax.sgd(0.0), verbose=False)
+    out2 = jinns.solve(n_iter=n2, init_params=out1[0], data=out1[3], loss=loss, optimizer=optax.sgd(0.0), verbose=False)
+    g2 = out2[3]
+    act_t = int((np.asarray(g2.p_times) != 0).sum()) if kind != "statio" else None
+    act_x = int((np.asarray(g2.p_omega) != 0).sum()) if kind != "ode" else None
+    return int(g2.rar_iter_nb), act_t, act_x
+
+
 def generate(tier, seed, casedir, variant):
     rng = random.Random(seed)
     cases, meta, viol, samples, dist = [], {}, [], [], {}
@@ -121,6 +137,26 @@ def generate(tier, seed, casedir, variant):
         dist["via_solve"] = dist.get("via_solve", 0) + 1
         if not ok:
             viol.append({"detail": f"jinns.solve({cfg['iters']} iterations): {J} steps, active (t,x)=({at},{ax}); schedule gives {eJ} steps", "case": dict(cfg, via="solve")})
+    # resumed training: the schedule of every call is start + k * every in that call's own iteration numbers
+    nres = 6 if tier == "quick" else 18
+    for j in range(nres):
+        c = rand_cfg(rng, KINDS[j % 3])
+        c["start"], c["every"] = rng.randint(0, 1), rng.randint(2, 4)
+        c["nt"] = c["nt_start"] + 12 * c["sel_t"]; c["n"] = c["n_start"] + 12 * c["sel_x"]
+        n1 = c["start"] + c["every"] * rng.randint(1, 2) + rng.randint(1, c["every"] - 1) + 1        # the first call ends in the middle of a period
+        n2 = c["start"] + c["every"] * rng.randint(1, 2) + 1
+        sched = lambda n: sum(1 for i in range(n) if i >= c["start"] and (i - c["start"]) % c["every"] == 0)
+        expJ = sched(n1) + sched(n2)
+        exp_t = c["nt_start"] + expJ * c["sel_t"] if c["kind"] != "statio" else None
+        exp_x = c["n_start"] + expJ * c["sel_x"] if c["kind"] != "ode" else None
+        try:
+            J, at, ax = resumed_end_state(c, n1, n2)
+        except Exception as ex:
+            viol.append({"detail": f"resumed run ({c['kind']}) raised {type(ex).__name__}: {str(ex)[:200]}", "case": dict(c, what="resumed", n1=n1, n2=n2)}); continue
+        if (J, at, ax) != (expJ, exp_t, exp_x):
+            viol.append({"detail": f"resumed run ({c['kind']}; {n1} then {n2} iterations, start={c['start']}, every={c['every']}): {J} steps, active time / space points {at} / {ax}, expected {expJ}, {exp_t} / {exp_x}",
+                         "case": dict(c, what="resumed", n1=n1, n2=n2)})
+        dist["resumed_runs"] = dist.get("resumed_runs", 0) + 1
     write_cases(casedir, "C16", "R_C16", variant, cases, chunk=60)
     return dict(meta=meta, oracle_violations=viol, evaluations=len(cases) + nsolve, distinct_nontrivial=len(nontrivial),
                 rule="random (kind, start, every, initial/total counts, selected sizes) with every (start, every) in 0..4 x 1..4 visited; trigger_rar stepped 8-14 iterations with batch draws in between, plus end states of jinns.solve; non-trivial = at least one refinement step happened",
@@ -130,6 +166,16 @@ def generate(tier, seed, casedir, variant):
 def replay(rep, casedir, variant):
     cfg = rep["case"]
     viol = []
+    if cfg.get("what") == "resumed":
+        c = {k: v for k, v in cfg.items() if k not in ("what", "n1", "n2")}
+        sched = lambda n: sum(1 for i in range(n) if i >= c["start"] and (i - c["start"]) % c["every"] == 0)
+        expJ = sched(cfg["n1"]) + sched(cfg["n2"])
+        exp_t = c["nt_start"] + expJ * c["sel_t"] if c["kind"] != "statio" else None
+        exp_x = c["n_start"] + expJ * c["sel_x"] if c["kind"] != "ode" else None
+        J, at, ax = resumed_end_state(c, cfg["n1"], cfg["n2"])
+        if (J, at, ax) != (expJ, exp_t, exp_x):
+            viol.append({"detail": f"resumed run: {J} steps, active {at} / {ax}, expected {expJ}, {exp_t} / {exp_x}", "case": cfg})
+        return dict(meta={0: cfg}, oracle_violations=viol, evaluations=1, distinct_nontrivial=1, rule="replay", samples=[cfg])
     if cfg.get("via") == "solve":
         J, at, ax = solve_end_state(cfg); eJ = expected_steps(cfg)[-1][1]
         if J != eJ:
